@@ -290,3 +290,76 @@ def expected_values(rec: Dict[str, Any], d: int) -> List[Any]:
     ctx = untag(rec["_ctx"]) if rec.get("_ctx") else None
     start = [doc] if root == "^" else (ctx if root == "_" else doc)
     return [value_at(start, l) for l in rec["res"][d]]
+
+
+# ---- seeded random (document, query) pairs drawn by the specification (MC_PathRandom.tla) ---------
+
+RCFG = """CONSTANTS MaxDepth = {depth}
+ MaxSegs = {segs}
+ WithFilters = {filters}
+INIT Init
+NEXT Next
+INVARIANT LocOK
+INVARIANT Denotation
+INVARIANT Export
+"""
+
+
+def random_cases(chk: Check, *, filters: bool, num: int, seed: int, jobs: int = 8, depth: int = 3, segs: int = 3) -> List[Dict[str, Any]]:
+    from .core import tlc_parallel
+
+    js = [("MC_PathRandom", RCFG.format(depth=depth, segs=segs, filters="TRUE" if filters else "FALSE"),
+           dict(simulate=(num // jobs, segs + 3), seed=seed * 1000 + k, workers=1, timeout=3000)) for k in range(jobs)]
+    out: List[Dict[str, Any]] = []
+    seen = set()
+    for r in tlc_parallel(js, threads=jobs):
+        chk.add_tlc(r)
+        for x in r.records:
+            key = json.dumps((x["texts"][0], x["doc"]))
+            if key not in seen:
+                seen.add(key)
+                out.append(x)
+    return out
+
+
+def replay_random(rec: Dict[str, Any]) -> List[Tuple[str, Dict[str, Any], str]]:
+    """One random (document, query): every spelling evaluated and compared with the specification."""
+    import jsonpath
+
+    from .core import exc_family, parts_to_loc
+
+    exp = [lockey(l) for l in rec["res"]]
+    for si, t in enumerate(rec["texts"]):
+        text = untext(t)
+        for fl in (False, True):
+            doc = untag(rec["doc"], floats=fl)
+            try:
+                ms = list(jsonpath.finditer(text, doc))
+                obs = [lockey(parts_to_loc(m.parts)) for m in ms]
+                disc = ""
+                if obs != exp:
+                    node_order = {lockey(l): i for i, l in enumerate(_locs_of(rec["doc"]))}
+                    if not alt_descendant_order_ok(rec["q"], exp, obs, node_order):
+                        disc = "selects-other-nodes" if sorted(map(repr, obs)) != sorted(map(repr, exp)) else "wrong-order"
+                elif any(m.obj is not value_at(doc, l) for m, l in zip(ms, rec["res"])):
+                    disc = "values-not-the-nodes-at-their-locations"
+            except BaseException as e:  # noqa: BLE001
+                disc = f"raised-{exc_family(e)}"
+                obs = []
+            if disc:
+                return [(f"random:{disc}|{sel_features(rec['q'])}|{'+'.join(sorted(expr_features(rec['q'])))}",
+                         {"query": text, "doc": show(rec["doc"]), "floats": fl, "expected": [loc_to_parts_k(l) for l in exp], "observed": [loc_to_parts_k(l) for l in obs],
+                          "tagged": rec}, disc)]
+    return []
+
+
+def _locs_of(t: Dict[str, Any], loc: Optional[List[Dict[str, Any]]] = None) -> List[List[Dict[str, Any]]]:
+    loc = loc or []
+    out = [loc]
+    if t["t"] == "arr":
+        for i, x in enumerate(t["xs"]):
+            out += _locs_of(x, loc + [{"k": "idx", "s": [], "i": i}])
+    elif t["t"] == "obj":
+        for k, x in zip(t["ks"], t["vs"]):
+            out += _locs_of(x, loc + [{"k": "key", "s": k, "i": 0}])
+    return out
